@@ -34,11 +34,12 @@ impl DcpsDomainParticipant {
         Ok(status)
     }
 
-    #[tracing::instrument(skip(self))]
+    #[tracing::instrument(skip(self, runtime))]
     pub fn set_topic_qos(
         &mut self,
         topic_name: String,
         topic_qos: QosKind<TopicQos>,
+        runtime: &impl DdsRuntime,
     ) -> DdsResult<()> {
         let qos = match topic_qos {
             QosKind::Default => self.domain_participant.default_topic_qos.clone(),
@@ -69,6 +70,36 @@ impl DcpsDomainParticipant {
         }
 
         topic.qos = qos;
+
+        if topic.enabled {
+            // The topic QoS is announced on its own and (topic_data) as part of what the
+            // writers and readers of the topic announce
+            let mut writer_handle_list = alloc::vec::Vec::new();
+            for publisher in &self.domain_participant.user_defined_publisher_list {
+                for data_writer in &publisher.data_writer_list {
+                    if data_writer.enabled && data_writer.topic_name == topic_name {
+                        writer_handle_list
+                            .push((publisher.instance_handle, data_writer.instance_handle));
+                    }
+                }
+            }
+            let mut reader_handle_list = alloc::vec::Vec::new();
+            for subscriber in &self.domain_participant.user_defined_subscriber_list {
+                for data_reader in &subscriber.data_reader_list {
+                    if data_reader.enabled && data_reader.topic_name == topic_name {
+                        reader_handle_list
+                            .push((subscriber.instance_handle, data_reader.instance_handle));
+                    }
+                }
+            }
+            self.announce_topic(topic_name, runtime);
+            for (publisher_handle, data_writer_handle) in writer_handle_list {
+                self.announce_data_writer(&publisher_handle, &data_writer_handle, runtime);
+            }
+            for (subscriber_handle, data_reader_handle) in reader_handle_list {
+                self.announce_data_reader(&subscriber_handle, &data_reader_handle, runtime);
+            }
+        }
         Ok(())
     }
 
